@@ -228,7 +228,7 @@ def _gen_textgrid(rng, ntiers=(1, 5), nentries=(0, 7), keywords=False, min_gap=2
             if ents and rng.random() < 0.07:
                 # two marks on one instant (a tone and a break index): a point tier may hold them, and keeps them ordered by label
                 j = rng.randrange(len(ents))
-                ents[j:j + 1] = [(ents[j][0], "H*"), (ents[j][0], "L-")]
+                ents[j:j + 1] = [(ents[j][0], "H*"), (ents[j][0], "L-")] if rng.random() < 0.5 else [(ents[j][0], "L-"), (ents[j][0], "H*")]  # (handed over in either order)
                 classes.add("two-points-at-one-time")
         lo = ents[0][0] if ents else 0.0
         hi = ents[-1][-2] if ents else 1.0
@@ -257,7 +257,9 @@ def _gen_textgrid(rng, ntiers=(1, 5), nentries=(0, 7), keywords=False, min_gap=2
 def to_spec(data):
     """plain data -> the structure models.praat_text writers take"""
     return {"xmin": data["min"], "xmax": data["max"], "tiers": [
-        {"class": "IntervalTier" if t["t"] == "I" else "TextTier", "name": t["name"], "xmin": t["min"], "xmax": t["max"], "entries": [tuple(e) for e in t["entries"]]}
+        {"class": "IntervalTier" if t["t"] == "I" else "TextTier", "name": t["name"], "xmin": t["min"], "xmax": t["max"],
+         # (points that share a time are written in label order: what order a reader keeps them in otherwise is not specified)
+         "entries": [tuple(e) for e in t["entries"]] if t["t"] == "I" else sorted((tuple(e) for e in t["entries"]), key=lambda e: (e[0], e[1]))}
         for t in data["tiers"]]}
 
 
